@@ -85,11 +85,13 @@ func UnmarshalAttribute(attr *api.Attribute) (bgp.PathAttributeInterface, error)
 		var linkLocalNexthop netip.Addr
 		if rf.Afi() == bgp.AFI_IP6 {
 			nexthop = netip.IPv6Unspecified()
-			if len(a.MpReach.NextHops) > 1 {
-				linkLocalNexthop, err = netip.ParseAddr(a.MpReach.NextHops[1])
-				if err != nil || !linkLocalNexthop.Is6() {
-					return nil, fmt.Errorf("invalid nexthop: %s", a.MpReach.NextHops[1])
-				}
+		}
+		// A link-local next hop accompanies an IPv6 global next hop whatever the
+		// family of the NLRI (RFC 2545, RFC 8950).
+		if len(a.MpReach.NextHops) > 1 {
+			linkLocalNexthop, err = netip.ParseAddr(a.MpReach.NextHops[1])
+			if err != nil || !linkLocalNexthop.Is6() {
+				return nil, fmt.Errorf("invalid nexthop: %s", a.MpReach.NextHops[1])
 			}
 		}
 		if rf.Safi() == bgp.SAFI_FLOW_SPEC_UNICAST || rf.Safi() == bgp.SAFI_FLOW_SPEC_VPN {
@@ -2250,7 +2252,13 @@ func NewMpReachNLRIAttributeFromNative(a *bgp.PathAttributeMpReachNLRI) (*api.Mp
 		nexthops = nil
 	} else {
 		// For backward compatibility with older versions; ipv4-mapped IPv6 addresses printed as IPv4 addresses.
-		nexthops = []string{a.Nexthop.Unmap().String()}
+		// Only for IPv6 families: there an IPv4 next hop is serialised in the mapped form anyway;
+		// for any other family un-mapping would turn a 16-octet next hop into a 4-octet one.
+		nh := a.Nexthop
+		if a.AFI == bgp.AFI_IP6 {
+			nh = nh.Unmap()
+		}
+		nexthops = []string{nh.String()}
 		if a.LinkLocalNexthop.IsValid() && a.LinkLocalNexthop.IsLinkLocalUnicast() {
 			nexthops = append(nexthops, a.LinkLocalNexthop.String())
 		}
